@@ -29,6 +29,7 @@ import c09_tables  # noqa: E402
 GEN = os.path.join(core.LEAN_DIR, "UtapModel", "Gen", "C09Tables.lean")
 MODULE = "UtapModel.Props.C09"
 CORPUS = os.path.join(core.VERIF, "corpus", "c09")
+VARIANT = os.environ.get("C09_VARIANT", "plain")  # bulk of the pairs; the every-site rewrites are repeated on the ASan+UBSan build
 MASK_NEW = 10   # syntax_t::NEW | GUIDING   (parse_XTA(..., newxta = true, ...))
 
 PARSED_LABELS = {"invariant", "guard", "select", "synchronisation", "assignment", "probability", "exponentialrate",
@@ -45,7 +46,7 @@ SOFT = ["M", "sup", "inf", "bounds", "simulation"]
 PROPERTY_ONLY = ["deadlock", "control", "control_t", "minE", "maxE", "minPr", "maxPr", "under", "imitate", "strategy", "simulate",
                  "sat", "Pmax", "Pr", "X", "numOf", "foreach", "loadStrategy", "saveStrategy"]
 NEAR = ["And", "OR", "nott", "imply_", "int_", "Int", "constant", "forall_", "true1", "_false", "location_", "a$b", "x#1", "_", "__x",
-        "AA", "Ab", "UU", "E1", "W_", "Rr", "A$", "cont", "voids", "ints", "iff", "elsewhere", "doit", "form", "struct_", "typedefs"]
+        "AA", "Ab", "UU", "E1", "x_t", "_t", "t_", "type_", "Type", "id_T", "clock_", "chan1", "Location", "Xx", "sup_", "inf1", "x_and_y", "W_", "Rr", "A$", "cont", "voids", "ints", "iff", "elsewhere", "doit", "form", "struct_", "typedefs"]
 
 
 def hexs(b):
@@ -672,6 +673,8 @@ class Meta:
         self.disagreements = []
         self.skipped_by_model = 0
         self.samples = []
+        self.HA = None
+        self.asan_pairs = 0
 
     def run_batch(self, items):
         """items: (S, base_canon, family, detail, groups, rho, expect_tokens_same) -> evaluates all, handles failures"""
@@ -800,7 +803,7 @@ def metamorphic(ctx, M, prepared, tables):
     ctx.log("metamorphic: %d rewritten models to run" % len(items))
     # filter by the lexer model: trivia / alias rewrites must leave the model's token stream unchanged
     keep = []
-    check_idx, texts, expect = [], [], []
+    check_idx, texts, expect, masked = [], [], [], []
     for i, it in enumerate(items):
         S, family, groups = it[0], it[2], it[4]
         if family in ("trivia", "alias"):
@@ -809,13 +812,20 @@ def metamorphic(ctx, M, prepared, tables):
                 check_idx.append(i)
                 texts.append(blocks[b])
                 expect.append(S.m.blocks[b])
+                sites = set()
+                if family == "alias":
+                    starts = [a for (a, _, _) in tok_lexemes(S.lx[b])]
+                    sites = {starts.index(g[0][1]) for g in groups if g[0][0] == b and g[0][1] in starts}
+                masked.append(sites)
     got = M.L.toks(texts)
     want = M.L.toks(expect)
     bad = set()
-    for i, g, w in zip(check_idx, got, want):
-        g2 = [ALIAS_TOKMAP.get(x, x) for x in g]
-        w2 = [ALIAS_TOKMAP.get(x, x) for x in w]
-        if g2 != w2:
+    for i, g, w, sites in zip(check_idx, got, want, masked):
+        # alias rewrites: the pairs are given by the property, the lexer model only has to confirm that every OTHER token
+        # is unchanged (the token at a rewritten site is masked); trivia rewrites: the whole stream must be unchanged
+        g2 = [x for k, x in enumerate(g) if k not in sites]
+        w2 = [x for k, x in enumerate(w) if k not in sites]
+        if len(g) != len(w) or g2 != w2:
             bad.add(i)
     M.skipped_by_model = len(bad)
     keep = [it for i, it in enumerate(items) if i not in bad]
@@ -832,6 +842,18 @@ def metamorphic(ctx, M, prepared, tables):
     B = 400
     for i in range(0, len(normal), B):
         M.run_batch(normal[i:i + B])
+    # the every-site rewrites once more on the sanitizer build (a sanitizer report kills the harness = CRASH = disagreement)
+    if M.HA is not None:
+        sub = [it for it in normal if it[2] == "rename-fresh" or it[3] in ("all", "fwd-all", "bwd-all") or
+               (it[2] == "trivia" and len(it[4]) > 3)]
+        if not ctx.thorough:
+            sub = sub[::2] if len(sub) > 500 else sub
+        h0, M.H = M.H, M.HA
+        p0 = M.pairs
+        for i in range(0, len(sub), B):
+            M.run_batch(sub[i:i + B])
+        M.H = h0
+        M.asan_pairs = M.pairs - p0
     return exception_hits
 
 
@@ -917,6 +939,142 @@ def trace_correspondence(ctx, H, L):
         if rt != mt2:
             dis.append({"expr": e, "real": rt, "model": mt2})
     return len(exprs), dis, {"rejected_by_both": errs}
+
+
+# queries (PROPERTY syntax): the soft keywords sup / inf / bounds / simulation ARE keywords here ------------------------------
+
+QUERY_MODEL = """<nta><declaration>const int N = 3;
+typedef int[0,N-1] idx_t;
+int cnt = 1, lim = 2;
+int arr[N] = {0, 1, 2};
+bool flag = true;
+clock gc;
+chan go;
+int twice(int v) { return 2 * v; }
+</declaration><template><name>Proc</name><parameter>const idx_t me</parameter><declaration>clock lc; int loc = 0;</declaration>
+<location id="id0"><name>Idle</name><label kind="invariant">lc &lt;= 5</label></location><location id="id1"><name>Busy</name></location><init ref="id0"/>
+<transition><source ref="id0"/><target ref="id1"/><label kind="guard">lc &gt;= 1</label><label kind="assignment">loc = loc + 1, cnt = twice(cnt) % 7</label></transition>
+<transition><source ref="id1"/><target ref="id0"/><label kind="assignment">lc = 0</label></transition>
+</template><system>P0 = Proc(0);
+P1 = Proc(1);
+system P0, P1;</system></nta>
+"""
+QUERIES = ["A[] cnt >= 0", "E<> cnt > lim and not flag", "A[] not deadlock", "E<> P0.Busy && P1.Idle", "A[] P0.loc <= 3 or P1.loc >= 0",
+           "cnt > 1 --> lim > 0", "A[] forall (i : idx_t) arr[i] >= 0", "E<> exists (i : idx_t) arr[i] == cnt", "A<> P0.lc > 2 imply flag",
+           "E[] (cnt < 10)", "sup: cnt, lim", "inf{flag}: gc", "sup{cnt > 0}: P0.lc", "bounds: cnt", "A[] twice(cnt) >= cnt",
+           "A[] arr[0] + arr[1] * arr[2] <= 9", "E<> sum (i : idx_t) arr[i] > 2", "Pr[<=10](<> cnt > 2)", "simulate [<=10] {cnt, lim}",
+           "E<> cnt ==", "A[] undefinedName > 1", "A[] (flag ? cnt : lim) > 0", "E<> P0.Busy and (cnt := 3) > 1"]
+QTRIVIA = [("blank", " "), ("tab", "\t"), ("mixed", " \t "), ("blockcomment", "/* c */"), ("emptyblock", "/**/"), ("starcomment", "/***/")]
+MASK_PROPERTY = 4
+
+
+def query_family(ctx, H, L, tables):
+    """metamorphic pairs on (model, query): parse_XML_buffer, then the query through parseProperty (PROPERTY syntax)"""
+    rng = ctx.rng
+    m = Model("query-model.xml", "xml", QUERY_MODEL)
+    S = Sites(m, L.lex(m.blocks), [])
+    occ, typedefs = identifiers(S)
+    builtins = builtin_names()
+    qlex = L.lex(QUERIES, mask=MASK_PROPERTY)
+    lits = literal_strings(tables)
+    kw_prop = {k for k, _, _, bits in tables["keywords"] if bits & MASK_PROPERTY} | {k for k, _, _, bits in tables["keywords"] if bits & 2}
+    model_text = m.render()
+
+    def qcanon(a, rho):
+        def ren(x):
+            return WORD.sub(lambda mm: rho.get(mm.group(0), mm.group(0)), x) if rho else x
+        return {"q": [ren(l) for l in a if l.startswith("Q ")], "diags": sorted(ren(l) for l in a if l.startswith("D ")),
+                "crash": [l for l in a if l.startswith("CRASH") or l.startswith("EXC") or l.startswith("RC ")]}
+    base = H.run(["query %s %s" % (hexs(model_text), hexs(q)) for q in QUERIES])
+    items = []     # (qi, family, detail, model_text', query', rho)
+    for qi, (q, lx) in enumerate(zip(QUERIES, qlex)):
+        tl = tok_lexemes(lx)
+        # trivia at every boundary, alias rewrites
+        bounds = []
+        prev = ""
+        for (a, e, r, toks) in lx:
+            if r < 1000:
+                bounds.append((a, prev))
+            prev = q[a:e] if r < 1000 else ""
+        bounds.append((len(q), prev))
+        for tname, tt in QTRIVIA:
+            pos = [p for (p, pv) in bounds if closed(pv, tt[0], lits)]
+            allq = "".join((tt if i in pos else "") + (q[i] if i < len(q) else "") for i in range(len(q) + 1))
+            items.append((qi, "query-trivia", tname, model_text, allq, None))
+            for p in rng.sample(pos, min(len(pos), 3 if ctx.thorough else 1)):
+                items.append((qi, "query-trivia", tname, model_text, q[:p] + tt + q[p:], None))
+        for direction, table in (("fwd", ALIAS_FWD), ("bwd", ALIAS_BWD)):
+            q2, done = q, False
+            for (a, e, toks) in reversed(tl):
+                if toks[-1] in table:
+                    q2 = q2[:a] + " " + table[toks[-1]].strip() + " " + q2[e:]
+                    done = True
+            if done:
+                items.append((qi, "query-alias", direction, model_text, q2, None))
+        # renaming across model and query
+        qocc = {}
+        for (a, e, toks) in tl:
+            if toks[-1].startswith("T_ID=") or toks[-1].startswith("T_TYPENAME="):
+                qocc.setdefault(q[a:e], []).append((a, e))
+        user = sorted(x for x in (set(occ) | set(qocc)) if x not in builtins)
+        used = set(user) | builtins | kw_prop | set(lits)
+
+        def apply(rho):
+            blocks = apply_edits(m.blocks, [ed for g in rename_edits(occ, rho) for ed in g])
+            q2 = q
+            for (a, e, x) in sorted(((a, e, x) for x in qocc for (a, e) in qocc[x]), reverse=True):
+                if x in rho:
+                    q2 = q2[:a] + rho[x] + q2[e:]
+            return m.render(blocks), q2
+        rho = {}
+        for i, x in enumerate(user):
+            n = "fresh%d_%d" % (i, rng.randint(0, 999))
+            rho[x] = n
+        mt, q2 = apply(rho)
+        items.append((qi, "query-rename-fresh", "plain", mt, q2, rho))
+        pool = [n for n in ONE_LETTER + SOFT + NEAR if n not in kw_prop or n in SOFT]
+        for x in sorted(qocc):
+            if x in builtins:
+                continue
+            for sp in (pool if ctx.thorough else rng.sample(ONE_LETTER, 2) + ["sup", "inf", "bounds", "simulation", "M"] + rng.sample(NEAR, 2)):
+                if sp in occ or sp in qocc:
+                    continue
+                role = "typedef" if x in typedefs else ("array" if any(q[e:e + 1] == "[" for (a, e) in qocc[x]) else "other")
+                mt, q2 = apply({x: sp})
+                items.append((qi, "query-rename-special", "%s-named-%s" % (role, sp), mt, q2, {x: sp}))
+    # token-stream filter for trivia (model says unchanged) -- alias pairs are the property's
+    tq = [it[4] for it in items if it[1] == "query-trivia"]
+    got = L.toks(tq, mask=MASK_PROPERTY)
+    want = L.toks([QUERIES[it[0]] for it in items if it[1] == "query-trivia"], mask=MASK_PROPERTY)
+    ok = iter([g == w for g, w in zip(got, want)])
+    items = [it for it in items if it[1] != "query-trivia" or next(ok)]
+    ans = H.run(["query %s %s" % (hexs(it[3]), hexs(it[4])) for it in items])
+    stats, shapes = {}, {}
+    for it, a in zip(items, ans):
+        qi, family, detail, mt, q2, rho = it
+        stats[family] = stats.get(family, 0) + 1
+        ca, cb = qcanon(base[qi], rho), qcanon(a, rho)
+        if ca == cb:
+            continue
+        diff = next("%s: %r vs %r" % (k, ca[k][:3], cb[k][:3]) for k in ("crash", "q", "diags") if ca[k] != cb[k])
+        key = "%s:%s" % (family.replace("query-rename-special", "rename:query"), detail)
+        rp = {"entry": "parse_XML_buffer + parseProperty", "model_b64": b64(mt), "query": q2, "original_query": QUERIES[qi],
+              "renaming": rho, "difference": diff}
+        if family == "query-rename-special":
+            role, sp = detail.split("-named-")
+            if sp in ONE_LETTER + ["sup", "inf", "bounds", "simulation"]:
+                # exception shapes of the renaming theorem in PROPERTY syntax: the spelling is a literal / keyword token there;
+                # NonTypeId re-admits it as a plain identifier only (not as a type name, not before '[' for E, not where the
+                # query grammar itself starts with that token)
+                shapes.setdefault("rename:query-%s-named-%s" % (role, "one-letter-token" if sp in ONE_LETTER else "soft-keyword"), []).append(
+                    (QUERIES[qi], q2, diff, rp))
+                continue
+        ctx.finding(key, "%s rewrite changes the result of query %r: %s" % (family, QUERIES[qi], diff), rp)
+    for key, lst in sorted(shapes.items()):
+        q0, q2, diff, rp = lst[0]
+        ctx.finding(key, "renaming an identifier of a query to a soft keyword / one-letter token changes the result (%d pairs), e.g. %r -> %r: %s"
+                    % (len(lst), q0, q2, diff), rp)
+    return sum(stats.values()), stats, {k: len(v) for k, v in shapes.items()}
 
 
 # exception shapes of the theorems: witnesses replayed on the real library -----------------------------------------------
@@ -1007,7 +1165,7 @@ def run(ctx):
         json.dump({k: tables[k] for k in ("rules", "keywords", "maxlen", "bits", "toks")} | {"grammar": tables["grammar"]},
                   open(os.path.join(core.CACHE, "c09-last-tables.json"), "w"))
     # 3/4 the implementation ----------------------------------------------------------------------------------------
-    b = core.build_repo("plain")
+    b = core.build_repo(VARIANT)
     exe = core.build_harness(b, "c09", ["c09.cpp"])
     H = Harness(exe, ctx)
     drv = core.lean_exe("drv_c09")
@@ -1029,8 +1187,25 @@ def run(ctx):
     for (S, c, raw) in prepared:
         if c["crash"]:
             ctx.finding("crash:baseline:" + S.m.name, "the library crashed on an unmodified model", {"model": S.m.name, "out": raw[:20]})
+    # how many real text blocks satisfy the hypotheses of the lexer theorems (Renderable, evaluated by the Lean driver)
+    code_blocks = [b for (S, _, _) in prepared for b, k in zip(S.m.blocks, S.m.bkind) if k == "code" and b.strip()]
+    hyp = L.run(["hyp %d - %s" % (MASK_NEW, hexs(b)) for b in code_blocks])
+    why = {}
+    for o in hyp:
+        if not o.startswith("yes"):
+            k = o.split(":")[1] if ":" in o else o
+            why[k] = why.get(k, 0) + 1
+    cov["lexer_theorem_hypotheses"] = {"text_blocks": len(code_blocks), "renderable": sum(1 for o in hyp if o.startswith("yes")),
+                                       "not_renderable_by_reason": why,
+                                       "lexemes_covered": sum(int(o.split(":")[1]) for o in hyp if o.startswith("yes"))}
     M = Meta(ctx, H, L, tables)
+    try:
+        ba = core.build_repo("asan")
+        M.HA = Harness(core.build_harness(ba, "c09a", ["c09.cpp"]), ctx)
+    except core.BuildError as ex:
+        ctx.notes.append("sanitizer build unavailable: %s" % str(ex)[-300:])
     exception_hits = metamorphic(ctx, M, prepared, tables)
+    ctx.log("metamorphic done: %d pairs" % M.pairs)
     ex, leftover = exception_witnesses(ctx, H, exception_hits)
     if leftover:
         M.run_batch(leftover)
@@ -1038,13 +1213,24 @@ def run(ctx):
         # pairs of a confirmed exception shape: they must FAIL only in the way the shape says (evidence, not alarms)
         n_ex = sum(len(v) for v in exception_hits.values())
         cov["pairs_in_exception_shapes"] = n_ex
-    n_lex, dis_lex, st_lex = lexer_correspondence(ctx, H, L, tables)
-    n_tr, dis_tr, st_tr = trace_correspondence(ctx, H, L)
+    if tie_err:
+        # the Lean driver is the one built from the last translatable tree: comparing it with the changed library says nothing
+        n_lex, dis_lex, st_lex, n_tr, dis_tr, st_tr = 0, [], {}, 0, [], {}
+        ctx.notes.append("translation failed: model/implementation correspondences skipped, rewrite sites computed with the last good tables")
+    else:
+        n_lex, dis_lex, st_lex = lexer_correspondence(ctx, H, L, tables)
+        n_tr, dis_tr, st_tr = trace_correspondence(ctx, H, L)
+    ctx.log("correspondences done")
     cov["correspondence_cases"] = n_lex + n_tr
     cov["correspondence_disagreements"] = len(dis_lex) + len(dis_tr)
     cov["lexer_correspondence"] = {"texts": n_lex, "disagreements": len(dis_lex), **st_lex}
     cov["trace_correspondence"] = {"expressions": n_tr, "disagreements": len(dis_tr), **st_tr}
-    cov["metamorphic_pairs"] = M.pairs
+    nq, qstats, qshapes = query_family(ctx, H, L, tables)
+    cov["query_pairs"] = nq
+    cov["query_pairs_by_family"] = qstats
+    cov["query_pairs_in_exception_shapes"] = qshapes
+    cov["metamorphic_pairs"] = M.pairs + nq
+    cov["pairs_repeated_under_asan_ubsan"] = M.asan_pairs
     cov["pairs_by_family"] = M.by_family
     cov["rewrite_sites_by_family"] = M.sites
     cov["rewrites_rejected_by_lexer_model"] = M.skipped_by_model
@@ -1086,7 +1272,7 @@ def replay(ctx, path):
     if "original_b64" not in rp:
         print(json.dumps(rp, indent=1)[:4000])
         return 1
-    b = core.build_repo("plain")
+    b = core.build_repo(VARIANT)
     exe = core.build_harness(b, "c09", ["c09.cpp"])
     H = Harness(exe, ctx)
     o = base64.b64decode(rp["original_b64"]).decode("utf-8")
